@@ -279,7 +279,7 @@ class MarkdownRenderer(BaseRenderer):
     def render_quote(
         self, token: block_token.Quote, max_line_length: int
     ) -> Iterable[str]:
-        max_child_line_length = max_line_length - 2 if max_line_length else None
+        max_child_line_length = max_line_length - 2 if max_line_length is not None else None
         lines = self.blocks_to_lines(
             token.children, max_line_length=max_child_line_length
         )
@@ -321,7 +321,7 @@ class MarkdownRenderer(BaseRenderer):
             prepend = token.prepend
             indentation = token.indentation
         max_child_line_length = (
-            max_line_length - prepend if max_line_length else None
+            max_line_length - prepend if max_line_length is not None else None
         )
         lines = self.blocks_to_lines(
             token.children, max_line_length=max_child_line_length
@@ -422,7 +422,7 @@ class MarkdownRenderer(BaseRenderer):
         original text flow as closely as possible.
         """
         current_line = ""
-        if not max_line_length:
+        if max_line_length is None:
             # plain rendering: merge all fragments and split on newlines
             for fragment in fragments:
                 if "\n" in fragment.text:
